@@ -1,5 +1,7 @@
 package main
 
+import "reflect"
+
 // splitmix64: every random choice in a run derives from one state seeded by VERIF_SEED.
 type RNG struct{ s uint64 }
 
@@ -37,3 +39,5 @@ func (r *RNG) Bytes(n int) []byte {
 // Fork derives an independent stream (used so that adding ops to one family does
 // not reshuffle another).
 func (r *RNG) Fork(label uint64) *RNG { return NewRNG(r.U64() ^ label) }
+
+func (r *RNG) PickRT(xs ...reflect.Type) reflect.Type { return xs[r.Intn(len(xs))] }
